@@ -1334,6 +1334,8 @@ def run_c05(ctx):
         r = rng.fork()
         if i % 3 == 2:
             scs.append(gen_syntax.prec_scenario(r, "c05p-%d-%d" % (ctx.seed, i)))
+        elif i % 7 == 3:
+            scs.append(gen_syntax.builtin_scenario(r, "c05b-%d-%d" % (ctx.seed, i)))
         else:
             scs.append(gen_syntax.c05_scenario(r, "c05-%d-%d" % (ctx.seed, i), r.choice(["stable", "stable", "wild"])))
     for sc, g, l, status in front_sweep(ctx, res, scs, "C05"):
